@@ -426,12 +426,45 @@ package lang
 //@   modifies results.results
 //@ func runFunction [C31] trusted
 //@   modifies fork.IsMethod
-//@ func testIsArray [C31] trusted
+// The three data-format judges: what they report, in terms of the value the stream unmarshals to.
+// (Their frame - they touch nothing the caller can see - rests on the trusted call-site frames below.)
+//@ func testIsArray [C31]
+//@   check none
 //@   modifies nothing
-//@ func testIsMap [C31] trusted
+//@   at call (*Process).Fork#* modifies nothing
+//@   at call (lang/stdio.Io).SetDataType#* modifies nothing
+//@   at call (lang/stdio.Io).Write#* modifies nothing
+//@   at call UnmarshalData#* modifies nothing
+//@   at call tMsg*#* modifies nothing
+//@   at call UnmarshalData#1 assert arg1 == dt
+//@   at call (lang/stdio.Io).Write#1 assert arg0 == b
+//@   ensures (result == TestPassed) == (errǂ1 == nil && errǂ2 == nil && (typeis(v, []string) || typeis(v, []any)))
+//@ func testIsMap [C31]
+//@   check none
 //@   modifies nothing
-//@ func testIsGreaterThanOrEqualTo [C31] trusted
+//@   at call (*Process).Fork#* modifies nothing
+//@   at call (lang/stdio.Io).SetDataType#* modifies nothing
+//@   at call (lang/stdio.Io).Write#* modifies nothing
+//@   at call UnmarshalData#* modifies nothing
+//@   at call tMsg*#* modifies nothing
+//@   at call UnmarshalData#1 assert arg1 == dt
+//@   at call (lang/stdio.Io).Write#1 assert arg0 == b
+//@   ensures imp(result == TestPassed, errǂ1 == nil && errǂ2 == nil)
+//@ func testIsGreaterThanOrEqualTo [C31]
+//@   check none
 //@   modifies nothing
+//@   at call (*Process).Fork#* modifies nothing
+//@   at call (lang/stdio.Io).SetDataType#* modifies nothing
+//@   at call (lang/stdio.Io).Write#* modifies nothing
+//@   at call UnmarshalData#* modifies nothing
+//@   at call tMsg*#* modifies nothing
+//@   at call UnmarshalData#1 assert arg1 == dt
+//@   at call (lang/stdio.Io).Write#1 assert arg0 == b
+//@   at return #4 assert result == TestPassed && l >= comparison
+//@   at return #5 assert result == TestFailed && l < comparison
+//@   ensures imp(result == TestPassed, errǂ1 == nil && errǂ2 == nil && l >= comparison)
+//@   at return #4 assert imp(typeis(v, []string), l == len(unbox(v, []string))) && imp(typeis(v, []any), l == len(unbox(v, []any)))
+//@   at return #5 assert imp(typeis(v, []string), l == len(unbox(v, []string))) && imp(typeis(v, []any), l == len(unbox(v, []any)))
 
 //@ func runTest$1 [C31]
 //@   check none
